@@ -683,7 +683,7 @@ class Taint:
                 elif df[0] == "call":
                     t = df[2]
                     seg = last_seg(F.callee_name(t))
-                    if (through_access and seg in ("len", "get", "first", "last")) or seg in ("min", "max", "checked_add", "checked_sub", "checked_mul", "saturating_sub", "saturating_add", "wrapping_add", "wrapping_sub", "into", "from", "try_from",
+                    if (through_access and seg in ("len", "get", "first", "last", "eq", "ne", "lt", "le", "gt", "ge", "cmp", "partial_cmp", "is_some", "is_none", "is_ok", "is_err", "contains", "starts_with")) or seg in ("min", "max", "checked_add", "checked_sub", "checked_mul", "saturating_sub", "saturating_add", "wrapping_add", "wrapping_sub", "into", "from", "try_from",
                                "try_into", "clone", "unwrap", "branch", "ok_or", "ok_or_else", "cloned", "copied", "deref", "abs", "unwrap_or", "map_err", "expect", "ok", "from_residual"):
                         for a in t["args"]:
                             if a[0] in ("copy", "move"):
